@@ -75,15 +75,9 @@ func traverse(context Context, matchingNode *CandidateNode, operation *Operation
 	}
 }
 
-// becomeEmptyContainer turns a node that is tagged !!null into the container a path through it needs.
+// dropChildrenUnlessKind: a node that is tagged !!null is about to become the container a path through it needs.
 // A null has no children: a node of another container kind that was merely re-tagged !!null must not keep the
 // children of its old kind (the elements of a sequence are not the key/value pairs of a map).
-func becomeEmptyContainer(node *CandidateNode, kind Kind) {
-	dropChildrenUnlessKind(node, kind)
-	node.Kind = kind
-	node.Tag = ""
-}
-
 func dropChildrenUnlessKind(node *CandidateNode, kind Kind) {
 	if node.Kind != kind && (node.Kind == MappingNode || node.Kind == SequenceNode) {
 		node.Content = nil
@@ -158,12 +152,14 @@ func traverseArrayIndices(context Context, matchingNode *CandidateNode, indicesT
 	if matchingNode.Tag == "!!null" && !context.DontAutoCreate {
 		log.Debugf("OperatorArrayTraverse got a null - turning it into an empty array")
 		// auto vivification
-		newKind := SequenceNode
+		matchingNode.Tag = ""
+		wantKind := SequenceNode
 		//check that the indices are numeric, if not, then we should create an object
 		if len(indicesToTraverse) != 0 && indicesToTraverse[0].Tag != "!!int" {
-			newKind = MappingNode
+			wantKind = MappingNode
 		}
-		becomeEmptyContainer(matchingNode, newKind)
+		dropChildrenUnlessKind(matchingNode, wantKind)
+		matchingNode.Kind = wantKind
 	}
 
 	if matchingNode.Kind == AliasNode {
@@ -345,19 +341,6 @@ func doTraverseMergedMap(newMatches *orderedmap.OrderedMap, node *CandidateNode,
 	return nil
 }
 
-// mapEntryMatchKey identifies an entry among the entries of ONE map and of the maps merged into it: by its key.
-// (GetKey also holds the document index, which differs between a copy of a map made by an operator and the anchored
-// maps of a later document it merges: the merged entry then no longer gave way to the map's own entry.)
-func mapEntryMatchKey(n *CandidateNode) string {
-	if n.IsMapKey {
-		return "key-" + n.Value
-	}
-	if n.Key != nil {
-		return "value-" + n.Key.Value
-	}
-	return "value-"
-}
-
 func traverseMergeAnchor(newMatches *orderedmap.OrderedMap, value *CandidateNode, wantedKey string, prefs traversePreferences, splat bool, mergedFrom []*CandidateNode) error {
 	switch value.Kind {
 	case AliasNode:
@@ -383,4 +366,17 @@ func traverseArray(context Context, candidate *CandidateNode, operation *Operati
 	log.Debug("operation Value %v", operation.Value)
 	indices := []*CandidateNode{{Value: operation.StringValue}}
 	return traverseArrayWithIndices(context, candidate, indices, prefs)
+}
+
+// mapEntryMatchKey identifies an entry among the entries of ONE map and of the maps merged into it: by its key.
+// (GetKey also holds the document index, which differs between a copy of a map made by an operator and the anchored
+// maps of a later document it merges: the merged entry then no longer gave way to the map's own entry.)
+func mapEntryMatchKey(n *CandidateNode) string {
+	if n.IsMapKey {
+		return "key-" + n.Value
+	}
+	if n.Key != nil {
+		return "value-" + n.Key.Value
+	}
+	return "value-"
 }
